@@ -8,7 +8,7 @@ use std::sync::{Arc, Mutex};
 
 use serde_json::{json, Value};
 use shred::cell::{AtomicRef, AtomicRefMut};
-use shred::{CastFrom, Fetch, FetchMut, MetaTable, Read, ResourceId, World, Write};
+use shred::{CastFrom, Fetch, FetchMut, MetaIter, MetaIterMut, MetaTable, Read, ResourceId, World, Write};
 
 use crate::hsys::{Cell0, Cell1};
 use crate::report::{Collector, Finding};
@@ -74,6 +74,9 @@ pub enum G<'a> {
     Sd2((Option<Write<'a, Cell0>>, Option<Read<'a, Cell1>>)),
     Mr(AtomicRef<'a, dyn Tagged + 'static>),
     Mw(AtomicRefMut<'a, dyn Tagged + 'static>),
+    /// a live meta-table iterator: holds no borrow itself, every `next` yields a guard of its own
+    It(MetaIter<'a, dyn Tagged + 'static>),
+    ItMut(MetaIterMut<'a, dyn Tagged + 'static>),
 }
 
 #[derive(Clone, Copy, Debug, PartialEq, Eq, Hash)]
@@ -87,6 +90,10 @@ pub enum Op8 {
     SysData(u8),
     MetaIterNext,
     MetaIterMutNext,
+    /// create a meta-table iterator (shared / exclusive) and keep it alive as a "guard" that holds nothing
+    IterOpen(bool),
+    /// call `next` on live iterator number `.0`; the yielded item becomes a guard of its own
+    IterNext(u8),
     Clone(u8),
     Drop(u8),
     /// acquire (op index into `acquire_ops`) inside a closure that then panics
@@ -101,6 +108,8 @@ struct Model {
     shared: [u32; NK],
     excl: [bool; NK],
     guards: Vec<Hold>,
+    /// parallel to `guards`: Some((exclusive, cursor)) for a live iterator
+    iters: Vec<Option<(bool, u8)>>,
     canary: [u64; NK],
     next_canary: u64,
 }
@@ -183,6 +192,7 @@ fn members(op: Op8) -> Option<(Vec<(u8, bool, bool)>, bool)> {
         Op8::SysData(_) => (vec![(0, true, false), (0, false, false)], false),
         Op8::MetaIterNext => (vec![(0, false, false)], false),
         Op8::MetaIterMutNext => (vec![(0, true, false)], false),
+        Op8::IterOpen(_) => (vec![], false),
         _ => return None,
     })
 }
@@ -252,6 +262,8 @@ fn acquire_real<'a>(w: &'a World, meta: &'a MetaTable<dyn Tagged>, op: Op8) -> R
         }
         Op8::MetaIterNext => meta.iter(w).next().map(G::Mr),
         Op8::MetaIterMutNext => meta.iter_mut(w).next().map(G::Mw),
+        Op8::IterOpen(false) => Some(G::It(meta.iter(w))),
+        Op8::IterOpen(true) => Some(G::ItMut(meta.iter_mut(w))),
         _ => return Err("not an acquiring operation".into()),
     })
 }
@@ -327,6 +339,7 @@ fn touch(g: &mut G, hold: &Hold, m: &mut Model) -> Result<(), String> {
         }
         G::Mr(x) => vals.push(x.get()),
         G::Mw(x) => vals.push(x.get()),
+        G::It(_) | G::ItMut(_) => {}
     }
     if vals.len() != hold.len() {
         return Err(format!("guard exposes {} values, model holds {} members", vals.len(), hold.len()));
@@ -356,6 +369,8 @@ pub fn acquire_ops() -> Vec<Op8> {
     }
     v.push(Op8::MetaIterNext);
     v.push(Op8::MetaIterMutNext);
+    v.push(Op8::IterOpen(false));
+    v.push(Op8::IterOpen(true));
     v
 }
 
@@ -364,6 +379,7 @@ pub fn alphabet(max_guards: usize) -> Vec<Op8> {
     for i in 0..max_guards as u8 {
         v.push(Op8::Clone(i));
         v.push(Op8::Drop(i));
+        v.push(Op8::IterNext(i));
     }
     for (i, _) in acquire_ops().iter().enumerate() {
         v.push(Op8::AcquireThenPanic(i as u8));
@@ -394,7 +410,62 @@ pub fn run_history(h: &[Op8], max_guards: usize) -> Result<Option<Vec<u8>>, Fail
                 let g = guards.remove(j as usize);
                 drop(g);
                 let hd = m.guards.remove(j as usize);
+                m.iters.remove(j as usize);
                 m.give(&hd);
+            }
+            Op8::IterNext(j) => {
+                let (ex, cur) = match m.iters.get(j as usize).copied().flatten() {
+                    Some(x) => x,
+                    None => return Ok(None),
+                };
+                if guards.len() >= max_guards {
+                    return Ok(None);
+                }
+                // registered (and present) in this order: key 0, key 1
+                let want = if cur >= 2 {
+                    Cls::None
+                } else if m.can(cur, ex) {
+                    Cls::Guard
+                } else {
+                    Cls::Panic
+                };
+                let r = catch_unwind(AssertUnwindSafe(|| match &mut guards[j as usize] {
+                    G::It(it) => it.next().map(G::Mr),
+                    G::ItMut(it) => it.next().map(G::Mw),
+                    _ => unreachable!(),
+                }));
+                let got = match &r {
+                    Ok(Some(_)) => Cls::Guard,
+                    Ok(None) => Cls::None,
+                    Err(_) => Cls::Panic,
+                };
+                if got != want {
+                    let sig = match (got, want) {
+                        (Cls::Guard, Cls::Panic) => "aliasing-guard-returned",
+                        (Cls::None, Cls::Panic) => "conflict-returns-none-instead-of-panic",
+                        (Cls::Panic, _) => "unexpected-panic",
+                        _ => "outcome-differs-from-borrow-model",
+                    };
+                    return Err(fail(sig, format!("next() on a live {} meta-table iterator at position {} gave {:?}, the borrow model says {:?} (shared {:?}, exclusive {:?})", if ex { "exclusive" } else { "shared" }, cur, got, want, m.shared, m.excl)));
+                }
+                match r {
+                    Ok(Some(g)) => {
+                        let hd = vec![(cur, ex)];
+                        m.take(&hd);
+                        guards.push(g);
+                        m.guards.push(hd);
+                        m.iters.push(None);
+                        m.iters[j as usize] = Some((ex, cur + 1));
+                    }
+                    Ok(None) => {}
+                    Err(_) => {
+                        // where a rejected `next` leaves the iterator is not specified: stop using it
+                        let g = guards.remove(j as usize);
+                        drop(g);
+                        m.guards.remove(j as usize);
+                        m.iters.remove(j as usize);
+                    }
+                }
             }
             Op8::Clone(j) => {
                 if j as usize >= guards.len() || guards.len() >= max_guards {
@@ -409,6 +480,7 @@ pub fn run_history(h: &[Op8], max_guards: usize) -> Result<Option<Vec<u8>>, Fail
                 let hd = m.guards[j as usize].clone();
                 m.take(&hd);
                 m.guards.push(hd);
+                m.iters.push(None);
             }
             Op8::AcquireThenPanic(a) => {
                 let aop = acq[a as usize];
@@ -456,6 +528,10 @@ pub fn run_history(h: &[Op8], max_guards: usize) -> Result<Option<Vec<u8>>, Fail
                 if let Ok(Ok(Some(g))) = r {
                     guards.push(g);
                     m.guards.push(hd);
+                    m.iters.push(match aop {
+                        Op8::IterOpen(ex) => Some((ex, 0)),
+                        _ => None,
+                    });
                 }
             }
         }
@@ -486,10 +562,13 @@ pub fn run_history(h: &[Op8], max_guards: usize) -> Result<Option<Vec<u8>>, Fail
     }
     let mut shapes: Vec<Vec<(u8, bool)>> = m.guards.clone();
     // order matters for Drop(i)/Clone(i): keep positional
-    for s in shapes.drain(..) {
+    for (s, it) in shapes.drain(..).zip(m.iters.iter()) {
         key.push(250);
         for (k, ex) in s {
             key.push(k * 2 + ex as u8);
+        }
+        if let Some((ex, cur)) = it {
+            key.push(240 + *ex as u8 * 4 + *cur);
         }
     }
     drop(guards);
